@@ -226,6 +226,21 @@ func (in *inst) compare(cls string) string {
 		for e := m.Front(); e != nil; e = e.Next() {
 			mv = append(mv, e.Value.(int))
 		}
+		// a chain that does not end (an element linked to itself or to an earlier one) would make every bulk operation
+		// below spin forever: walk it by hand with a bound first
+		limit := len(mv) + len(in.rh) + 4
+		n := 0
+		for e := r.Front(); e != nil; e = e.Next() {
+			if n++; n > limit {
+				return fmt.Sprintf("%s|cycle: the forward chain of L%d does not end after %d elements, container/list has %v", cls, l, limit, mv)
+			}
+		}
+		n = 0
+		for e := r.Back(); e != nil; e = e.Prev() {
+			if n++; n > limit {
+				return fmt.Sprintf("%s|cycle: the backward chain of L%d does not end after %d elements, container/list has %v", cls, l, limit, mv)
+			}
+		}
 		if rv := r.Values(); fmt.Sprint(rv) != fmt.Sprint(append([]int{}, mv...)) {
 			return fmt.Sprintf("%s|order: L%d is %v, container/list has %v", cls, l, rv, mv)
 		}
